@@ -361,14 +361,18 @@ namespace cds { namespace gc {
             void extend()
             {
                 assert( list_head_ != nullptr );
-                assert( current_block_ == list_tail_ );
-                assert( current_cell_ == current_block_->last());
 
                 retired_block* block = retired_allocator::instance().alloc();
                 assert( block->next_ == nullptr );
 
-                current_block_ = list_tail_ = list_tail_->next_ = block;
-                current_cell_ = block->first();
+                // scan() compacts the array before calling extend(): the current cell may be in the middle
+                // of the array. Move to the new block only if the array is really full
+                bool const full = current_block_ == list_tail_ && current_cell_ == current_block_->last();
+                list_tail_ = list_tail_->next_ = block;
+                if ( full ) {
+                    current_block_ = block;
+                    current_cell_ = block->first();
+                }
                 ++block_count_;
                 CDS_HPSTAT( ++extend_call_count_ );
             }
